@@ -4,7 +4,7 @@ translate.py — Python AST -> Lean 4 for "IntPy", plus a table dumper.
 
 IntPy is deliberately small: integer locals and `self.<attr>` fields (Int or
 Optional[int] read-only), `+ - * // %`, unary minus, comparisons (chained),
-`and/or/not`, int truthiness, `is None` / `is not None`, `if/elif/else`,
+`and/or/not`, int truthiness, `x in (a, b, …)` / `not in` over integer values and module-level integer constants, `is None` / `is not None`, `if/elif/else`,
 assignment, augmented assignment, `a, b = divmod(x, k)`, `abs`, `int`, `_sign`,
 `assert`, `raise X(...)`, `return` of an int expression / tuple /
 `datetime.date(y, m, d)` (returned as the triple).
@@ -54,8 +54,9 @@ def find_function(tree, qualname):
     return node
 
 class Tr:
-    def __init__(self, spec):
+    def __init__(self, spec, consts=None):
         self.spec = spec
+        self.consts = consts or {}      # module-level NAME = <int literal>
         self.types = {}   # local name -> 'Int' | 'Bool' | 'OptInt'
         for n, t in spec.params:
             self.types[n] = t
@@ -78,6 +79,9 @@ class Tr:
             if isinstance(e.value, bool) or not isinstance(e.value, int):
                 raise Untranslatable("constant %r" % (e.value,))
             return str(e.value) if e.value >= 0 else "(%d)" % e.value
+        if isinstance(e, ast.Name) and e.id not in self.types and e.id in self.consts:
+            v = self.consts[e.id]
+            return str(v) if v >= 0 else "(%d)" % v
         if isinstance(e, (ast.Name, ast.Attribute)):
             n = self.name_of(e)
             return n
@@ -114,6 +118,15 @@ class Tr:
             parts = []
             left = e.left
             for op, right in zip(e.ops, e.comparators):
+                if isinstance(op, (ast.In, ast.NotIn)):
+                    # `x in (a, b, c)` on integer values  ↦  (x = a ∨ x = b ∨ x = c)
+                    if not isinstance(right, ast.Tuple) or not right.elts:
+                        raise Untranslatable("membership in a non-tuple")
+                    l = self.expr(left)
+                    alts = " ∨ ".join("(%s = %s)" % (l, self.expr(el)) for el in right.elts)
+                    parts.append("(%s)" % alts if isinstance(op, ast.In) else "(¬ (%s))" % alts)
+                    left = right
+                    continue
                 if isinstance(op, (ast.Is, ast.IsNot)):
                     if not (isinstance(right, ast.Constant) and right.value is None):
                         raise Untranslatable("is")
@@ -283,7 +296,13 @@ def translate_function(src_root, spec):
     path = os.path.join(src_root, spec.file)
     tree = ast.parse(open(path).read())
     fn = find_function(tree, spec.qualname)
-    return Tr(spec).function(fn), hashlib.sha256(ast.dump(fn).encode()).hexdigest()[:16]
+    consts = {}
+    for node in tree.body:
+        if isinstance(node, ast.Assign) and len(node.targets) == 1 and isinstance(node.targets[0], ast.Name) \
+                and isinstance(node.value, ast.Constant) and isinstance(node.value.value, int) \
+                and not isinstance(node.value.value, bool):
+            consts[node.targets[0].id] = node.value.value
+    return Tr(spec, consts).function(fn), hashlib.sha256(ast.dump(fn).encode()).hexdigest()[:16]
 
 
 def lean_int_list(name, xs, ty="Int", per_line=31):
